@@ -529,6 +529,18 @@ def d4(cx: Cx, ob: Ob) -> None:
             checked.add(key)
             ob.site(f"{where(fn, ctx.path.out[2])} {fn.qualname}", f"{{{name}}} {'inside' if inside else 'outside'} a quoted literal: {show(p)[:50]}")
             if not inside:
+                # a part that brings its own quotes: the quoting function decides what is written
+                for x in subterms(p):
+                    if op(x) == "call" and x[1] == ("ext", "json.dumps") and not is_const(dict(x[3]).get("ensure_ascii"), False):
+                        ob.violate(
+                            fn.qualname,
+                            where(fn, ctx.path.out[2]),
+                            f"`{name}` is quoted with json.dumps(...) and its default ensure_ascii=True: a character above U+FFFF is written as a \\uD83D\\uDE00-style surrogate PAIR, which Turtle reads as two separate (lone surrogate) characters - the value does not read back",
+                            witness=f"{name} containing U+1F600: two \\uXXXX escapes in the file, a different string after from_shacl",
+                            detail=f"json-ascii:{name}",
+                        )
+                    elif op(x) == "call" and x[1] == ("builtin", "repr"):
+                        ob.violate(fn.qualname, where(fn, ctx.path.out[2]), f"`{name}` is quoted with repr(): Python's escapes (\\x.., single quotes) are not Turtle's", detail=f"repr-quoted:{name}")
                 continue
             q = p
             # escaping through a helper function: inline single-return helpers
@@ -904,3 +916,10 @@ def x7(cx: Cx, ob: Ob) -> None:
     from .c01 import check_table_roles
 
     check_table_roles(cx, ob, ["pattern_map"])
+
+
+@obligation("C14-X32", "the module-level readers (shared with C13-D1): load_extended_prefix_map / load_prefix_map / load_jsonld_context / load_shacl hand their data and **kwargs to the matching Converter.from_* - what was written is read back with the options the caller gives (strict=False for a file written with synonyms as separate declarations)", floor=4)
+def x32(cx: Cx, ob: Ob) -> None:
+    from .c13 import check_load_wrappers
+
+    check_load_wrappers(cx, ob)
